@@ -8,44 +8,167 @@
 #include "probe.hpp"
 static bool thorough = false;
 
+// Every mutator of a stored value that writes ONE number: {name, slot it must write, call}. All of them are operations of the
+// exploration (not one representative per slot).
+template <class V, class X>
+struct Writer {
+  const char* name;
+  int slot;
+  void (*call)(V&, X);
+};
+#define W_(NAME, SLOT, EXPR) {NAME, SLOT, [](V& v, X x) { EXPR; }}
 template <class X>
-void set_slot(X& v, int, X x) {
-  v = x;
+std::vector<Writer<X, X>> writers(const X*) {
+  using V = X;
+  return {W_("=", 0, v = x)};
 }
 template <class X>
-void set_slot(PhQ::PlanarVector<X>& v, int i, X x) {
-  if (i == 0) v.Mutable_x() = x; else v.Set_y(x);
+std::vector<Writer<PhQ::PlanarVector<X>, X>> writers(const PhQ::PlanarVector<X>*) {
+  using V = PhQ::PlanarVector<X>;
+  return {W_("Mutable_x()=", 0, v.Mutable_x() = x), W_("Set_x", 0, v.Set_x(x)), W_("Mutable_x_y()[0]=", 0, v.Mutable_x_y()[0] = x),
+          W_("Mutable_y()=", 1, v.Mutable_y() = x), W_("Set_y", 1, v.Set_y(x)), W_("Mutable_x_y()[1]=", 1, v.Mutable_x_y()[1] = x)};
 }
 template <class X>
-void set_slot(PhQ::Vector<X>& v, int i, X x) {
-  if (i == 0) v.Mutable_x() = x;
-  if (i == 1) v.Set_y(x);
-  if (i == 2) v.Mutable_x_y_z()[2] = x;
+std::vector<Writer<PhQ::Vector<X>, X>> writers(const PhQ::Vector<X>*) {
+  using V = PhQ::Vector<X>;
+  return {W_("Mutable_x()=", 0, v.Mutable_x() = x), W_("Set_x", 0, v.Set_x(x)), W_("Mutable_x_y_z()[0]=", 0, v.Mutable_x_y_z()[0] = x),
+          W_("Mutable_y()=", 1, v.Mutable_y() = x), W_("Set_y", 1, v.Set_y(x)), W_("Mutable_x_y_z()[1]=", 1, v.Mutable_x_y_z()[1] = x),
+          W_("Mutable_z()=", 2, v.Mutable_z() = x), W_("Set_z", 2, v.Set_z(x)), W_("Mutable_x_y_z()[2]=", 2, v.Mutable_x_y_z()[2] = x)};
 }
 template <class X>
-void set_slot(PhQ::SymmetricDyad<X>& v, int i, X x) {
-  switch (i) {
-    case 0: v.Mutable_xx() = x; break;
-    case 1: v.Set_xy(x); break;
-    case 2: v.Mutable_zx() = x; break;  // zx aliases xz in a symmetric tensor
-    case 3: v.Set_yy(x); break;
-    case 4: v.Mutable_xx_xy_xz_yy_yz_zz()[4] = x; break;
-    default: v.Set_zz(x);
+std::vector<Writer<PhQ::SymmetricDyad<X>, X>> writers(const PhQ::SymmetricDyad<X>*) {
+  using V = PhQ::SymmetricDyad<X>;
+  // stored order xx xy xz yy yz zz; yx, zx, zy name the same numbers as xy, xz, yz
+  return {W_("Mutable_xx()=", 0, v.Mutable_xx() = x), W_("Set_xx", 0, v.Set_xx(x)), W_("Mutable_xy()=", 1, v.Mutable_xy() = x), W_("Set_xy", 1, v.Set_xy(x)),
+          W_("Mutable_yx()=", 1, v.Mutable_yx() = x), W_("Set_yx", 1, v.Set_yx(x)), W_("Mutable_xz()=", 2, v.Mutable_xz() = x), W_("Set_xz", 2, v.Set_xz(x)),
+          W_("Mutable_zx()=", 2, v.Mutable_zx() = x), W_("Set_zx", 2, v.Set_zx(x)), W_("Mutable_yy()=", 3, v.Mutable_yy() = x), W_("Set_yy", 3, v.Set_yy(x)),
+          W_("Mutable_yz()=", 4, v.Mutable_yz() = x), W_("Set_yz", 4, v.Set_yz(x)), W_("Mutable_zy()=", 4, v.Mutable_zy() = x), W_("Set_zy", 4, v.Set_zy(x)),
+          W_("Mutable_zz()=", 5, v.Mutable_zz() = x), W_("Set_zz", 5, v.Set_zz(x)),
+          W_("Mutable_xx_xy_xz_yy_yz_zz()[0]=", 0, v.Mutable_xx_xy_xz_yy_yz_zz()[0] = x), W_("Mutable_xx_xy_xz_yy_yz_zz()[1]=", 1, v.Mutable_xx_xy_xz_yy_yz_zz()[1] = x),
+          W_("Mutable_xx_xy_xz_yy_yz_zz()[2]=", 2, v.Mutable_xx_xy_xz_yy_yz_zz()[2] = x), W_("Mutable_xx_xy_xz_yy_yz_zz()[3]=", 3, v.Mutable_xx_xy_xz_yy_yz_zz()[3] = x),
+          W_("Mutable_xx_xy_xz_yy_yz_zz()[4]=", 4, v.Mutable_xx_xy_xz_yy_yz_zz()[4] = x), W_("Mutable_xx_xy_xz_yy_yz_zz()[5]=", 5, v.Mutable_xx_xy_xz_yy_yz_zz()[5] = x)};
+}
+template <class X>
+std::vector<Writer<PhQ::Dyad<X>, X>> writers(const PhQ::Dyad<X>*) {
+  using V = PhQ::Dyad<X>;
+  return {W_("Mutable_xx()=", 0, v.Mutable_xx() = x), W_("Set_xx", 0, v.Set_xx(x)), W_("Mutable_xy()=", 1, v.Mutable_xy() = x), W_("Set_xy", 1, v.Set_xy(x)),
+          W_("Mutable_xz()=", 2, v.Mutable_xz() = x), W_("Set_xz", 2, v.Set_xz(x)), W_("Mutable_yx()=", 3, v.Mutable_yx() = x), W_("Set_yx", 3, v.Set_yx(x)),
+          W_("Mutable_yy()=", 4, v.Mutable_yy() = x), W_("Set_yy", 4, v.Set_yy(x)), W_("Mutable_yz()=", 5, v.Mutable_yz() = x), W_("Set_yz", 5, v.Set_yz(x)),
+          W_("Mutable_zx()=", 6, v.Mutable_zx() = x), W_("Set_zx", 6, v.Set_zx(x)), W_("Mutable_zy()=", 7, v.Mutable_zy() = x), W_("Set_zy", 7, v.Set_zy(x)),
+          W_("Mutable_zz()=", 8, v.Mutable_zz() = x), W_("Set_zz", 8, v.Set_zz(x)),
+          W_("Mutable_xx_xy_xz_yx_yy_yz_zx_zy_zz()[0]=", 0, v.Mutable_xx_xy_xz_yx_yy_yz_zx_zy_zz()[0] = x), W_("Mutable_xx_xy_xz_yx_yy_yz_zx_zy_zz()[1]=", 1, v.Mutable_xx_xy_xz_yx_yy_yz_zx_zy_zz()[1] = x),
+          W_("Mutable_xx_xy_xz_yx_yy_yz_zx_zy_zz()[2]=", 2, v.Mutable_xx_xy_xz_yx_yy_yz_zx_zy_zz()[2] = x), W_("Mutable_xx_xy_xz_yx_yy_yz_zx_zy_zz()[3]=", 3, v.Mutable_xx_xy_xz_yx_yy_yz_zx_zy_zz()[3] = x),
+          W_("Mutable_xx_xy_xz_yx_yy_yz_zx_zy_zz()[4]=", 4, v.Mutable_xx_xy_xz_yx_yy_yz_zx_zy_zz()[4] = x), W_("Mutable_xx_xy_xz_yx_yy_yz_zx_zy_zz()[5]=", 5, v.Mutable_xx_xy_xz_yx_yy_yz_zx_zy_zz()[5] = x),
+          W_("Mutable_xx_xy_xz_yx_yy_yz_zx_zy_zz()[6]=", 6, v.Mutable_xx_xy_xz_yx_yy_yz_zx_zy_zz()[6] = x), W_("Mutable_xx_xy_xz_yx_yy_yz_zx_zy_zz()[7]=", 7, v.Mutable_xx_xy_xz_yx_yy_yz_zx_zy_zz()[7] = x),
+          W_("Mutable_xx_xy_xz_yx_yy_yz_zx_zy_zz()[8]=", 8, v.Mutable_xx_xy_xz_yx_yy_yz_zx_zy_zz()[8] = x)};
+}
+// Whole-value setters fed with references into the object's own storage, in a permuted order (an in-place transpose, a cyclic
+// shift): the object must end up holding the permuted numbers. perm[i] = index of the old number that slot i receives.
+template <class X>
+bool permute_in_place(X&, int, const int**, const char**) {
+  return false;
+}
+template <class X>
+bool permute_in_place(PhQ::PlanarVector<X>& v, int variant, const int** perm, const char** name) {
+  static const int p[2] = {1, 0};
+  *perm = p;
+  if (variant == 0) {
+    auto& a = v.Mutable_x_y();
+    v.Set_x_y(a[1], a[0]);
+    *name = "Set_x_y(own y, own x) by reference";
+    return true;
   }
+  if (variant == 1) {
+    const auto& a = v.x_y();
+    v.Set_x_y(a[1], a[0]);
+    *name = "Set_x_y(x_y()[1], x_y()[0])";
+    return true;
+  }
+  return false;
 }
 template <class X>
-void set_slot(PhQ::Dyad<X>& v, int i, X x) {
-  switch (i) {
-    case 0: v.Mutable_xx() = x; break;
-    case 1: v.Set_xy(x); break;
-    case 2: v.Mutable_xz() = x; break;
-    case 3: v.Set_yx(x); break;
-    case 4: v.Mutable_yy() = x; break;
-    case 5: v.Set_yz(x); break;
-    case 6: v.Mutable_zx() = x; break;
-    case 7: v.Set_zy(x); break;
-    default: v.Mutable_xx_xy_xz_yx_yy_yz_zx_zy_zz()[8] = x;
+bool permute_in_place(PhQ::Vector<X>& v, int variant, const int** perm, const char** name) {
+  static const int p[3] = {1, 2, 0};
+  *perm = p;
+  if (variant == 0) {
+    auto& a = v.Mutable_x_y_z();
+    v.Set_x_y_z(a[1], a[2], a[0]);
+    *name = "Set_x_y_z(own y, own z, own x) by reference";
+    return true;
   }
+  if (variant == 1) {
+    const auto& a = v.x_y_z();
+    v.Set_x_y_z(a[1], a[2], a[0]);
+    *name = "Set_x_y_z(x_y_z()[1], [2], [0])";
+    return true;
+  }
+  return false;
+}
+template <class X>
+bool permute_in_place(PhQ::SymmetricDyad<X>& v, int variant, const int** perm, const char** name) {
+  static const int p[6] = {5, 4, 3, 2, 1, 0};
+  *perm = p;
+  if (variant == 0) {
+    auto& a = v.Mutable_xx_xy_xz_yy_yz_zz();
+    v.Set_xx_xy_xz_yy_yz_zz(a[5], a[4], a[3], a[2], a[1], a[0]);
+    *name = "Set_xx_xy_xz_yy_yz_zz(own numbers reversed) by reference";
+    return true;
+  }
+  if (variant == 1) {
+    const auto& a = v.xx_xy_xz_yy_yz_zz();
+    v.Set_xx_xy_xz_yy_yz_zz(a[5], a[4], a[3], a[2], a[1], a[0]);
+    *name = "Set_xx_xy_xz_yy_yz_zz(xx_xy_xz_yy_yz_zz() reversed)";
+    return true;
+  }
+  return false;
+}
+template <class X>
+bool permute_in_place(PhQ::Dyad<X>& v, int variant, const int** perm, const char** name) {
+  static const int p[9] = {0, 3, 6, 1, 4, 7, 2, 5, 8};
+  *perm = p;
+  if (variant == 0) {
+    auto& a = v.Mutable_xx_xy_xz_yx_yy_yz_zx_zy_zz();
+    v.Set_xx_xy_xz_yx_yy_yz_zx_zy_zz(a[0], a[3], a[6], a[1], a[4], a[7], a[2], a[5], a[8]);
+    *name = "in-place transpose through Set_xx_xy_xz_yx_yy_yz_zx_zy_zz(references)";
+    return true;
+  }
+  if (variant == 1) {
+    const auto& a = v.xx_xy_xz_yx_yy_yz_zx_zy_zz();
+    v.Set_xx_xy_xz_yx_yy_yz_zx_zy_zz(a[0], a[3], a[6], a[1], a[4], a[7], a[2], a[5], a[8]);
+    *name = "in-place transpose through Set_xx_xy_xz_yx_yy_yz_zx_zy_zz(const references)";
+    return true;
+  }
+  return false;
+}
+// Whole-value setters with fresh numbers: scalars and array forms.
+template <class X>
+bool set_all(X&, int, const X*, const char**) {
+  return false;
+}
+template <class X>
+bool set_all(PhQ::PlanarVector<X>& v, int variant, const X* n, const char** name) {
+  if (variant == 0) return v.Set_x_y(n[0], n[1]), *name = "Set_x_y(x, y)", true;
+  if (variant == 1) return v.Set_x_y(std::array<X, 2>{n[0], n[1]}), *name = "Set_x_y(array)", true;
+  return false;
+}
+template <class X>
+bool set_all(PhQ::Vector<X>& v, int variant, const X* n, const char** name) {
+  if (variant == 0) return v.Set_x_y_z(n[0], n[1], n[2]), *name = "Set_x_y_z(x, y, z)", true;
+  if (variant == 1) return v.Set_x_y_z(std::array<X, 3>{n[0], n[1], n[2]}), *name = "Set_x_y_z(array)", true;
+  return false;
+}
+template <class X>
+bool set_all(PhQ::SymmetricDyad<X>& v, int variant, const X* n, const char** name) {
+  if (variant == 0) return v.Set_xx_xy_xz_yy_yz_zz(n[0], n[1], n[2], n[3], n[4], n[5]), *name = "Set_xx_xy_xz_yy_yz_zz(6 numbers)", true;
+  if (variant == 1) return v.Set_xx_xy_xz_yy_yz_zz(std::array<X, 6>{n[0], n[1], n[2], n[3], n[4], n[5]}), *name = "Set_xx_xy_xz_yy_yz_zz(array)", true;
+  return false;
+}
+template <class X>
+bool set_all(PhQ::Dyad<X>& v, int variant, const X* n, const char** name) {
+  if (variant == 0) return v.Set_xx_xy_xz_yx_yy_yz_zx_zy_zz(n[0], n[1], n[2], n[3], n[4], n[5], n[6], n[7], n[8]), *name = "Set_xx_xy_xz_yx_yy_yz_zx_zy_zz(9 numbers)", true;
+  if (variant == 1)
+    return v.Set_xx_xy_xz_yx_yy_yz_zx_zy_zz(std::array<X, 9>{n[0], n[1], n[2], n[3], n[4], n[5], n[6], n[7], n[8]}), *name = "Set_xx_xy_xz_yx_yy_yz_zx_zy_zz(array)", true;
+  return false;
 }
 template <class Q, class = void>
 struct HasSetValue : std::false_type {};
@@ -106,8 +229,9 @@ struct Explorer {
       frontier.pop_front();
       if (nd.depth >= maxdepth) continue;
       // operation menu: (kind, slot, value index)
-      for (int kind = 0; kind < 6; kind++)
-        for (int slot = 0; slot < ((kind == 2 || kind == 4) ? N : 1); slot++)
+      static const auto ws = writers((const V*)nullptr);
+      for (int kind = 0; kind < 8; kind++)
+        for (int slot = 0; slot < (kind == 2 ? (int)ws.size() : kind == 4 ? N : (kind == 6 || kind == 7) ? 2 : 1); slot++)
           for (int k = 0; k < 3; k++) {
             // rebuild the real object in state nd.r (a fresh object per transition; state = its stored numbers)
             Q q = vf::make<Q>(nd.r.data());
@@ -133,9 +257,9 @@ struct Explorer {
                 continue;
             } else if (kind == 2) {
               if constexpr (HasMutableValue<Q>::value) {
-                set_slot(q.MutableValue(), slot, A[k]);
-                r[slot] = A[k];
-                opn = "MutableValue().slot=";
+                ws[slot].call(q.MutableValue(), A[k]);
+                r[ws[slot].slot] = A[k];
+                opn = ws[slot].name;
               } else
                 continue;
             } else if (kind == 3) {
@@ -155,6 +279,23 @@ struct Explorer {
               std::memcpy(static_cast<void*>(&q), buf, sizeof(Q));
               r[slot] = A[k];
               opn = "memcpy-array-slot=";
+            } else if (kind == 6) {
+              // whole-value setter of the stored value fed with references into the object itself, permuted
+              if (k) continue;
+              if constexpr (HasMutableValue<Q>::value) {
+                const int* perm = nullptr;
+                if (!permute_in_place(q.MutableValue(), slot, &perm, &opn)) continue;
+                for (int i = 0; i < N; i++) r[i] = nd.r[perm[i]];
+              } else
+                continue;
+            } else if (kind == 7) {
+              if constexpr (HasMutableValue<Q>::value) {
+                Ref nv;
+                for (int i = 0; i < N; i++) nv[i] = A[(k + i + (i / 3)) % 3];
+                if (!set_all(q.MutableValue(), slot, nv.data(), &opn)) continue;
+                r = nv;
+              } else
+                continue;
             } else {
               if (k) continue;
               // array of quantities viewed as one array of numbers
